@@ -189,6 +189,9 @@ pub fn byte_patterns() -> Vec<Pat> {
         b"a\x80",
         b"\x7f\x80\x81",
         b"(\x80|\xfe)b",
+        b"(\x80|\xff)b",
+        b"[\xc0-\xc1][\x80-\xbf]|[\xf5-\xff][\x80-\xbf]",
+        b"(a|\xff)+",
     ] {
         v.push(Pat::bregex(p));
     }
